@@ -71,6 +71,9 @@ def scenario(job):
             corr = request_id
             if mode == "error":
                 return succeed(ref.resp_api_versions(corr, 35, []))
+            if mode == "error-with-table":
+                # discovery fails with an error code although the reply lists versions: that is still a failed discovery
+                return succeed(ref.resp_api_versions(corr, 35, table))
             return succeed(ref.resp_api_versions(corr, 0, table))
 
         seen = {}
@@ -161,7 +164,8 @@ def jobs(tier):
         {"mode": "table", "permute": True, "drop": True},
         {"mode": "error", "permute": False},
         {"mode": "silent", "permute": False},
-        {"mode": "flaky", "permute": False},  # the first discovery attempt finds no broker, the second is answered
+        {"mode": "flaky", "permute": False},
+        {"mode": "error-with-table", "permute": False},  # the first discovery attempt finds no broker, the second is answered
     ]
     q = tier == "quick"
     out += [
